@@ -124,12 +124,19 @@ def admit_items(rng, tier):
     out.append(Admit(sid, "busy.inbound-in-progress", [["dial", "c1"], ["recv", "c1", 1, 1000], ["dial", "x1"], ["recv_eof", "x1", 500]] + hs[1:] + tail,
                      silent=["x1"], served=["c1"], alive="c1"))
     sid += 1
+    # two connections from the peer back to back (the second arrives before the manager has answered the first FSM)
+    # (the window is a few microseconds wide and the manager's select is random: repeated)
+    for _ in range(3 if tier == "quick" else 50):
+        out.append(Admit(sid, "busy.back-to-back", [["dial", "c1"], ["dial", "x1"], ["recv_eof", "x1", 600]] + hs + tail,
+                         silent=["x1"], served=["c1"], alive="c1"))
+        sid += 1
     out.append(Admit(sid, "busy.established", [["dial", "c1"]] + hs + [["dial", "x1"], ["recv_eof", "x1", 500], ["dial", "x2"], ["recv_eof", "x2", 500]] + tail,
                      silent=["x1", "x2"], served=["c1"], alive="c1"))
     sid += 1
     # held down after a protocol error at each state
     for state, pre in (("openSent", []), ("openConfirm", [["send", "c1", OPENM, 0]]), ("established", [["send", "c1", OPENM, 0], ["send", "c1", KAM, 0]])):
-        for bad in (S.frame(9).hex(), S.frame(2, b"", length=5).hex(), S.frame(S.NOTIF, S.notif_body(2, 2)).hex()):
+        for bad in (S.frame(9).hex(), S.frame(2, b"", length=5).hex(), S.frame(S.NOTIF, S.notif_body(2, 2)).hex(),
+                    S.frame(S.NOTIF, S.notif_body(7, 1)).hex(), S.frame(S.NOTIF, S.notif_body(200, 0)).hex()):
             out.append(Admit(sid, "held-down." + state,
                              [["dial", "c1"], ["recv", "c1", 1, 1000]] + pre + [["sleep", 10], ["send", "c1", bad, 0], ["recv_eof", "c1", 1000],
                               ["sleep", 60], ["dial", "x1"], ["recv_eof", "x1", 500], ["sleep", 200], ["dial", "x2"], ["recv_eof", "x2", 500]],
@@ -138,8 +145,21 @@ def admit_items(rng, tier):
     return out
 
 
+def forced_items():
+    """the second connection reaches the manager before the first inbound FSM has made its first transition
+    (schedule point run.start holds the new FSM): it must still be refused and closed"""
+    hs = [["recv", "c1", 1, 1000], ["send", "c1", OPENM, 0], ["send", "c1", KAM, 0], ["recv", "c1", 2, 1000], ["sleep", 20]]
+    tail = [["send", "c1", UPD, 0], ["sleep", 40]]
+    st = [["arm", "run.start"], ["dial", "c1"], ["wait_event", "point.hold", 1500, "run.start"], ["dial", "x1"], ["sleep", 40],
+          ["recv_eof", "x1", 400], ["release", "run.start"]] + hs + tail
+    return [Admit(700, "busy.before-first-transition", st, silent=["x1"], served=["c1"], alive="c1")]
+
+
 def sys_part(tier, rng, rep, replay):
     cov = sysrun.run_convs(PID, admit_items(rng, tier), rep, extra_check=lambda c, e, o, r: c.check(r), par=24)
+    covf = sysrun.run_convs(PID, forced_items(), rep, extra_check=lambda c, e, o, r: c.check(r), par=1)
+    cov["evaluations"] = cov.get("evaluations", 0) + covf["evaluations"]
+    cov["forced_schedules"] = covf["evaluations"]
     cov["rule"] = ("live server: connections from unconfigured loopback sources, to a destination other than the peer's local "
                    "address (wildcard listener), while an inbound connection is in progress, while Established, and while held "
                    "down after a protocol error at each state: each must be closed without a byte or a callback and an existing "
